@@ -107,3 +107,47 @@ func VerifC19_Conc_GiveUp_FIFO() { verifC19GiveUp(OrderingFIFO) }
 
 //verif:harness property=C19 theory=bv tier=quick unwind=3 unwindcut=1 clock=frozen maxpaths=30000
 func VerifC19_Conc_GiveUp_LIFO() { verifC19GiveUp(OrderingLIFO) }
+
+// verifC19TwoQueued: a FIFO / LIFO pool of limit 1 whose token is held since setup, two callers queued
+// in a fixed arrival order (verif.SpawnAfter), the context of the caller that is next in line is
+// cancelled by the environment at any moment or never (pools do not evict cancelled callers), then
+// the holder completes: at quiescence no caller is parked while the pool has a free token - a
+// release that meets a cancelled caller at the head still serves somebody.
+func verifC19TwoQueued(ord Ordering) {
+	p, err := NewFixedPool("p", ord, 1, 100, time.Second, time.Second, time.Millisecond, 10, time.Hour, nil, nil)
+	verif.Assert("pool-constructed", err == nil)
+	_, _, _, _, delegate := limiter.VerifDescribe(p.limiter)
+	st, _ := limiter.VerifDefaultParts(delegate.(*limiter.DefaultLimiter))
+	ps := st.(*strategy.PreciseStrategy)
+	held, ok := p.Acquire(context.Background())
+	verif.Assert("setup-holds-the-only-token", ok && ps.GetBusyCount() == 1)
+	ctx0, ctx1 := context.Background(), context.Background()
+	if ord == OrderingLIFO {
+		ctx1 = verif.CancelCtxEvent("head")
+	} else {
+		ctx0 = verif.CancelCtxEvent("head")
+	}
+	var ok0, ok1 bool
+	verif.SpawnAfter("w0", func() {
+		l, g := p.Acquire(ctx0)
+		ok0 = g && l != nil
+	})
+	verif.SpawnAfter("w1", func() {
+		l, g := p.Acquire(ctx1)
+		ok1 = g && l != nil
+	}, "w0")
+	verif.SpawnAfter("r", func() { held.OnIgnore() }, "w0", "w1")
+	verif.Parallel()
+	nBlocked := verif.B2I(verif.Blocked("w0")) + verif.B2I(verif.Blocked("w1"))
+	verif.Assert("two-queued-nobody-parked-with-a-free-token", verif.Not(verif.And(nBlocked > 0, ps.GetBusyCount() < 1)))
+	verif.Assert("two-queued-pool-holds-the-tokens-owned", ps.GetBusyCount() == verif.B2I(ok0)+verif.B2I(ok1))
+	verif.Reach("end")
+}
+
+// VerifC19_Conc_TwoQueued_FIFO / _LIFO
+//
+//verif:harness property=C19 theory=bv tier=quick timers=off unwind=3 unwindcut=1 clock=frozen maxpaths=60000
+func VerifC19_Conc_TwoQueued_FIFO() { verifC19TwoQueued(OrderingFIFO) }
+
+//verif:harness property=C19 theory=bv tier=quick timers=off unwind=3 unwindcut=1 clock=frozen maxpaths=60000
+func VerifC19_Conc_TwoQueued_LIFO() { verifC19TwoQueued(OrderingLIFO) }
